@@ -73,6 +73,11 @@ chk("C14", "runtime monitor (M-FRAME) on BoolGridFrame accessors, dual and the g
     "All frames 0..4 x 0..4 (thorough 7) x all coordinates inside/outside in both call styles; variable identity per geometric segment.",
     "documented horizontal/vertical arrays define the segment of each variable", "DESIGN.md §3 C14")
 
+chk("C15", "client-boundary round-trip oracle on the real serialize_problem/deserialize_problem over generated combinator terms and in-domain values + recording wrapper on every Combinator.serialize checking the local leaf law",
+    "Random combinator terms (OneOf alternatives with disjoint leading characters) x limit-hitting values x boards 1..6 x 1..6 incl. 1xN/Nx1; rooms in "
+    "all/random orders of rooms and cells; decode(encode(v)) == v up to the canonical ordering of rooms, exact consumption, and every leaf call reads back what it wrote.",
+    "values are generated structurally inside each combinator's domain; DecInt followed by a digit is not generated", "DESIGN.md §3 C15")
+
 MANIFEST = dict(
     version=1,
     setup_cmd="./setup.sh",
